@@ -335,16 +335,7 @@ func c12Start(t *testing.T) {
 	if err := c12NewSystem(); err != nil {
 		t.Fatalf("actor system: %v", err)
 	}
-	t.Cleanup(func() {
-		// bounded: ActorSystem.Stop can hang (the passivation manager livelocks on an
-		// expired entry once the system is stopping); not this property
-		done := make(chan struct{})
-		go func() { _ = c12Sys.Stop(context.Background()); close(done) }()
-		select {
-		case <-done:
-		case <-time.After(10 * time.Second):
-		}
-	})
+	t.Cleanup(func() { _ = c12Sys.Stop(context.Background()) })
 }
 
 // ---- one program ---------------------------------------------------------------------------
@@ -732,7 +723,9 @@ func c12Judge(res *c12Res, pr c12Prog, evs []c12Ev) {
 func c12Exec(x *vfkit.X, c c12Case) {
 	c12Mu.Lock()
 	if !c12Sys.Running() {
-		// the system stopped itself (a panic in one of its system actors): not this property
+		// the system stopped itself (a panic in one of its system actors; the cause seen
+		// while this check was built was repaired by 4a14b27): replace it, or every later
+		// case would silently run on a dead system
 		x.Class("system_rebuilt_after_it_stopped_itself")
 		if err := c12NewSystem(); err != nil {
 			c12Mu.Unlock()
